@@ -349,20 +349,12 @@ def documentedSupported : String → Option Nat
     (which trips `assert(ret != LZMA_BUF_ERROR)` in a debug build). -/
 def tableRets : List Nat := [0, 1, 2, 3, 4, 5, 6, 7, 8, 9, 11, 12, 13, 100, 101, 102, 103, 104, 105, 106, 107, 108, 109]
 
-def tableSize : Nat := 7 * 2 * 6 * 2 * 23 * 4
-
-/-- Row `idx` of the table: input = (sequence, allow_buf_error, action 0..5, avail_in changed?, inner ret,
+/-- One cell of the table: input = (sequence, allow_buf_error, action 0..5, avail_in changed?, inner ret,
     progress kind (consumed, produced) ∈ {(0,0),(1,0),(0,1),(1,1)}); the fixed context is avail_in 5 (saved 5,
     or 6 when "changed"), avail_out 7, totals 40/50, all five actions supported.
     Output code packs: returned ret, new sequence, new allow_buf_error, inner called, Δtotal_in, Δtotal_out,
     saved avail_in == avail_in afterwards. -/
-def tableRow (idx : Nat) : Nat :=
-  let prog := idx % 4
-  let retIdx := (idx / 4) % 23
-  let changed := (idx / (4 * 23)) % 2
-  let action := (idx / (4 * 23 * 2)) % 6
-  let abe := (idx / (4 * 23 * 2 * 6)) % 2
-  let sq := idx / (4 * 23 * 2 * 6 * 2)
+def tableCell (sq abe action changed retIdx prog : Nat) : Nat :=
   let i : Internal := { hasCode := true, sequence := Seq.ofCode sq, availIn := 5, supported := 31,
                         allowBufError := abe = 1 }
   let strm : Stream := { nextIn := some 1000, availIn := if changed = 1 then 6 else 5, totalIn := 40,
@@ -375,12 +367,19 @@ def tableRow (idx : Nat) : Nat :=
     ((((((r.ret * 8 + i'.sequence.code) * 2 + i'.allowBufError.toNat) * 2 + (if r.called.isSome then 1 else 0)) * 2
       + (r.strm.totalIn - 40)) * 2 + (r.strm.totalOut - 50)) * 2 + (if i'.availIn = r.strm.availIn then 1 else 0))
 
-def chunk256 (l : List Nat) (fuel : Nat) : List (List Nat) :=
-  match fuel with
-  | 0 => []
-  | fuel + 1 => if l.isEmpty then [] else l.take 256 :: chunk256 (l.drop 256) fuel
+/-- All cells of one (sequence, allow_buf_error, action, changed) combination. Whether the inner coder is
+    reached cannot depend on what it is going to answer, so a combination whose first cell did not reach it
+    is represented by that single cell; otherwise all 23 × 4 (inner ret, progress) cells are listed. -/
+def tableCombo (sq abe action changed : Nat) : List Nat :=
+  let first := tableCell sq abe action changed 0 0
+  if (first / 8) % 2 = 1 then (List.range 92).map (fun j => tableCell sq abe action changed (j / 4) (j % 4))
+  else [first]
 
-/-- The whole table in chunks of 256 rows (the shape Gen/C11 prints). -/
-def modelTable : List (List Nat) := chunk256 ((List.range tableSize).map tableRow) (tableSize / 256 + 1)
+/-- Chunk `k = (sq * 2 + abe) * 6 + action`: the two combinations changed = 0, 1. -/
+def tableChunk (k : Nat) : List Nat :=
+  tableCombo (k / 12) ((k / 6) % 2) (k % 6) 0 ++ tableCombo (k / 12) ((k / 6) % 2) (k % 6) 1
+
+/-- The whole table (7 sequences × 2 × 6 actions = 84 chunks), the shape Gen/C11 prints. -/
+def modelTable : List (List Nat) := (List.range 84).map tableChunk
 
 end XzVerif.LzmaCode
